@@ -162,6 +162,7 @@ func (eng *Engine) optionalDecls(body string) string {
 		}
 		items = append(items, item{u.Name, t})
 	}
+	items = append(items, item{"gs.zeros", "(declare-fun gs.zeros () (Array Int Str))\n(assert (forall ((i Int)) (! (= (select gs.zeros i) gs.empty) :pattern ((select gs.zeros i)))))\n"})
 	for i := 0; i+1 < len(eng.predDecls); i += 2 {
 		d := eng.predDecls[i]
 		name := strings.Fields(d)[1]
@@ -473,19 +474,34 @@ func dischargeAll(obls []*Obligation, prelude string, par, quickS, fullS int, ke
 	wg.Wait()
 	// second chance, one at a time and with a longer limit, for obligations that merely ran out of time
 	// while all cores were busy (a timeout under load must not become an alarm)
+	// (a few at a time: three solvers race per obligation, so par/2 keeps the machine well under full load)
+	rpar := par / 2
+	if rpar < 1 {
+		rpar = 1
+	}
+	rsem := make(chan struct{}, rpar)
+	var rwg sync.WaitGroup
 	for _, o := range obls {
+		o := o
 		if o.Status == "unsat" || o.Status == "sat" || o.queryFile == "" || o.Cover {
 			continue
 		}
-		r := solve(o.queryFile, quickS, 2*fullS)
-		if r.status == "unsat" || r.status == "sat" {
-			o.Status, o.Solver, o.TimeS = r.status, r.solver+" (retry)", r.secs
-			if r.status == "sat" {
-				o.Model = r.output
+		rwg.Add(1)
+		rsem <- struct{}{}
+		go func() {
+			defer rwg.Done()
+			defer func() { <-rsem }()
+			r := solve(o.queryFile, quickS, 2*fullS)
+			if r.status == "unsat" || r.status == "sat" {
+				o.Status, o.Solver, o.TimeS = r.status, r.solver+" (retry)", r.secs
+				if r.status == "sat" {
+					o.Model = r.output
+				}
+				if r.status == "unsat" && !keep {
+					os.Remove(o.queryFile)
+				}
 			}
-			if r.status == "unsat" && !keep {
-				os.Remove(o.queryFile)
-			}
-		}
+		}()
 	}
+	rwg.Wait()
 }
